@@ -32,14 +32,15 @@ DEFAULT_KINDS = (
 
 def base_record(opts):
     """opts: dict of generator choices (all concrete)"""
-    o = dict(desc=False, dep=False, default=0, recursion=0, schema_def=False, present=0xFF, mutation=True, roots=0)
+    o = dict(desc=False, dep=False, default=0, recursion=0, schema_def=False, present=0xFF, mutation=True, roots=0, text=0)
     o.update(opts)
     # roots: 0 as given by schema_def; 2 schema definition with SWAPPED conventional names; 3 schema definition that lists only the
     # query root although a type named Mutation exists; 4 as 3 plus `extend schema { mutation: Mutation }`
     if o["roots"] >= 2:
         o["schema_def"], o["mutation"] = True, True
-    d = (lambda s: s) if o["desc"] else (lambda s: None)
-    dep = (lambda s: s) if o["dep"] else (lambda s: None)
+    suffix = TEXT_SUFFIXES[o["text"]]           # appended to EVERY description and deprecation reason
+    d = (lambda s: s + suffix) if o["desc"] else (lambda s: None)
+    dep = (lambda s: s + suffix) if o["dep"] else (lambda s: None)
     qname = "RootQ" if o["schema_def"] else "Query"
     mname = "RootM" if o["schema_def"] else "Mutation"
     if o["roots"] == 2:
@@ -115,6 +116,11 @@ def base_record(opts):
         rec["directives"]["tag"] = {"desc": d("a tag"), "locations": ["FIELD_DEFINITION", "OBJECT"],
                                     "args": [{"name": "v", "type": "Int", "default": ("1", 1), "desc": None}, {"name": "w", "type": "String!", "default": None, "desc": None}]}
         rec["order"].append("@tag")
+    # types that no field refers to: one that is only known as an implementation of the interface, one that nothing refers to at all
+    if has(0):
+        add("Impl", {"kind": "object", "desc": d("only reachable as an implementation"), "interfaces": ["Node"],
+                     "fields": [{"name": "id", "type": "ID!", "args": [], "desc": None, "dep": None}, {"name": "extra", "type": "Int", "args": [], "desc": None, "dep": dep("no extra")}]})
+    add("Orphan", {"kind": "object", "desc": None, "interfaces": [], "fields": [{"name": "o", "type": "Int", "args": [], "desc": None, "dep": None}]})
     if o["dep"] == 2:
         # EVERY member of the second object type, the interface and the enum is deprecated (still a valid schema)
         for tname in ("B", "Node", "Color"):
@@ -124,23 +130,45 @@ def base_record(opts):
     return rec
 
 
+TEXT_SUFFIXES = ("", ' "q" \\ b', "\nsecond line", " \u00e9\u2713", " \U0001F600", " tail\\", ' quote"', "\tx", " \u2028\u0085 seps")
+
+
+def quote(text):
+    """a quoted GraphQL string whose value is `text` (escapes of the specification only; everything else, astral characters included, raw)"""
+    out = []
+    for ch in text:
+        if ch == "\\":
+            out.append("\\\\")
+        elif ch == '"':
+            out.append('\\"')
+        elif ch == "\n":
+            out.append("\\n")
+        elif ch == "\t":
+            out.append("\\t")
+        elif ord(ch) < 0x20:
+            out.append("\\u%04x" % ord(ch))
+        else:
+            out.append(ch)
+    return '"%s"' % "".join(out)
+
+
 def _desc(text, indent=""):
     if text is None:
         return ""
-    if "\n" in text:
+    if "\n" in text and '"' not in text and "\\" not in text:
         return '%s"""\n%s%s\n%s"""\n' % (indent, indent, text.replace("\n", "\n" + indent), indent)
-    return '%s"%s"\n' % (indent, text)
+    return '%s%s\n' % (indent, quote(text))
 
 
 def _dep(reason):
-    return (' @deprecated(reason: "%s")' % reason) if reason else ""
+    return (' @deprecated(reason: %s)' % quote(reason)) if reason else ""
 
 
 def _args(args):
     if not args:
         return ""
     return "(" + ", ".join(
-        ("%s%s: %s%s" % (('"%s" ' % a["desc"]) if a.get("desc") else "", a["name"], a["type"], (" = " + a["default"][0]) if a.get("default") else ""))
+        ("%s%s: %s%s" % ((quote(a["desc"]) + " ") if a.get("desc") else "", a["name"], a["type"], (" = " + a["default"][0]) if a.get("default") else ""))
         for a in args) + ")"
 
 
